@@ -19,12 +19,12 @@ RULE = (
     "distinct step completion orders actually observed are counted from the event logs), build directories of different "
     "depth with spaces in the path, different working directories, relative and absolute source paths.  sha256 of the font "
     "(and of the glyph map and feature file) must be equal inside a class.  In-process multiplier: the same _generate_color_font "
-    "inputs built in fresh interpreters under 4 hash seeds.  Non-trivial = class with >= 3 sources or shared shapes; "
+    "inputs (C01/C02/C03 generators + shared outlines whose every use has its own fill and opacity) built in fresh interpreters under 4 hash seeds.  Non-trivial = class with >= 3 sources or shared shapes; "
     "distinct = hash of the class inputs."
 )
 ASSUMPTIONS = ["SOURCE_DATE_EPOCH fixed by the harness", "ninja's ready queue cannot be permuted arbitrarily: schedules are varied by -j and injected delays only", "parts-merged.json is excluded (does not feed the font)"]
 N_CLI = {"quick": 16, "thorough": 160}
-N_INPROC = {"quick": 48, "thorough": 600}
+N_INPROC = {"quick": 64, "thorough": 800}
 FORMATS_Q = ["glyf_colr_1", "picosvg", "cbdt", "glyf_colr_1", "picosvg", "untouchedsvg", "glyf_colr_0", "sbix"]
 TIMEOUT = {"quick": 1500, "thorough": 6 * 3600}
 CASE_TIMEOUT = 900
@@ -68,6 +68,14 @@ def run_cli(case):
     failed = []
     try:
         src_dir = root / "src"
+        two_dirs = case["i"] % 2 == 1
+        if two_dirs:
+            # the same files spread over two directories, so that relative spellings sort differently from absolute ones
+            # (directory "a" gets the names that sort last)
+            ordered = sorted(srcs, key=lambda s: s["name"])
+            for k, s_ in enumerate(ordered):
+                s_["name"] = ("b/" if k < (len(ordered) + 1) // 2 else "a/") + s_["name"]
+            res["tags"].append("two-source-dirs")
         cli.write_sources(src_dir, srcs)
         names = sorted(s["name"] for s in srcs)
         base_flags = ["--color_format", fmt, "--family", "Det Test", "--output_file", "Font.ttf"]
@@ -81,12 +89,16 @@ def run_cli(case):
         variants.append(dict(label="reversed-args j16 delays hashseed1", args=names[::-1], cwd=src_dir, bdir=root / "b1", hs="1", j=16, delay=150))
         variants.append(dict(label="shuffled absolute paths, other cwd, deep build dir with spaces, random hashseed", args=[str(src_dir / n) for n in shuffled], cwd=root, bdir=root / "deep dir" / "with space" / "b2", hs=rnd_seed, j=4, delay=250))
         toml_glob = root / "glob.toml"
-        toml_glob.write_text(cli.toml_text({}, srcs=["src/*.svg"]))
+        toml_glob.write_text(cli.toml_text({}, srcs=["src/a/*.svg", "src/b/*.svg"] if two_dirs else ["src/*.svg"]))
         variants.append(dict(label="glob in toml, hashseed 12345", args=[str(toml_glob)], cwd=root, bdir=root / "b3", hs="12345", j=16, delay=100))
         toml_list = src_dir / "list.toml"
         toml_list.write_text(cli.toml_text({}, srcs=shuffled))
         variants.append(dict(label="explicit shuffled list in toml next to the sources", args=["list.toml"], cwd=src_dir, bdir=root / "b4", hs="7", j=2, delay=None))
-        variants.append(dict(label="sorted-args j16 other delay seed", args=names, cwd=src_dir, bdir=root / "b5", hs="0", j=16, delay=300))
+        if two_dirs:
+            rel_a = [n[2:] if n.startswith("a/") else "../" + n for n in names]
+            variants.append(dict(label="relative paths from inside one source directory (../b/x.svg), j16", args=rel_a, cwd=src_dir / "a", bdir=root / "b5", hs="0", j=16, delay=300))
+        else:
+            variants.append(dict(label="sorted-args j16 other delay seed", args=names, cwd=src_dir, bdir=root / "b5", hs="0", j=16, delay=300))
         for vi, v in enumerate(variants):
             ev = root / f"ev{vi}.jsonl"
             env = cli.env_for(events=ev, delay_ms=v["delay"], delay_seed=case["i"] * 10 + vi, ninja_j=v["j"], hashseed=v["hs"])
@@ -146,9 +158,17 @@ print("SHA", hashlib.sha256(b.data).hexdigest())
 def run_inproc(case):
     from vf.checks import c01, c02, c03
 
-    which = ["c01", "c02", "c03"][case["i"] % 3]
+    which = ["c01", "c02", "c03", "paint-varied-reuse"][case["i"] % 4]
     sub = {"seed": case["seed"], "i": case["i"], "id": case["id"]}
-    sources, cfg, _ = {"c01": c01, "c02": c02, "c03": c03}[which].gen_case(sub)
+    if which == "paint-varied-reuse":
+        r = common.rng(ID, "pv", case["seed"], case["i"])
+        svgs = svggen.paint_varied_reuse_set(r, r.randint(2, 4))
+        seqs = svggen.sequences(r, len(svgs), long_names=False)
+        sources = [{"svg": s, "codepoints": list(q)} for s, q in zip(svgs, seqs)]
+        cfg = svggen.font_config(r, ("picosvg", "picosvg", "picosvgz", "glyf_colr_1", "cff_colr_0"), user_transform=False, small_upem=False)
+        cfg["reuse_tolerance"] = 0.1
+    else:
+        sources, cfg, _ = {"c01": c01, "c02": c02, "c03": c03}[which].gen_case(sub)
     res = {"counters": {}, "violations": [], "tags": ["inproc:" + cfg["color_format"]]}
     c = res["counters"]
     root = common.mkscratch("c08ip-")
